@@ -777,7 +777,7 @@ def run(ctx):
     for f in FAMILIES:
         r = res[f]
         ctx.model_must_hold(r, "PipeFlow/" + f)
-        if r.distinct < (30 if quick else 300):
+        if r.distinct < (30 if quick else 60):
             raise vlib.ToolError("vacuity: model %s has only %d states" % (f, r.distinct))
         ctx.states += r.distinct
         ctx.transitions += r.generated
